@@ -256,6 +256,11 @@ class C05(core.Check):
 
         def base(nch, lo, hi, dict_size=0, comp=0):
             pieces = [r.randbytes(r.randrange(lo, hi)) for _ in range(nch)]
+            if nch >= 3 and r.random() < 0.35:
+                # byte-identical chunks (same checksum, two places in the index): each copy is a chunk of its own to fill and verify
+                for _ in range(r.choice([1, 2])):
+                    i_, j_ = r.sample(range(nch), 2)
+                    pieces[j_] = pieces[i_]
             return zckref.make_file(pieces, comp_type=comp, dict_bytes=r.randbytes(dict_size) if dict_size else b"", chunk_hash_type=r.randrange(4))
 
         def t0_for(B, p, M, truncate=False):
@@ -324,12 +329,14 @@ class C05(core.Check):
             ids = [c["number"] for c in p.chunks if c["comp_len"] > 0]
             M = sorted({k for k in ids if r.random() < 0.7} or {ids[-1]})
             bd = make_boundary(r, r.choice(["plain", "hex", "rfc"]))
-            style = r.choice([0, 1, 4, 32, 36])
+            style = r.choice([0, 1, 4, 32, 36, 96, 100])
             if any(ch not in TOKEN_SAFE for ch in bd):
                 style |= 1
             for upto in r.sample([1, 3, 17, 60, 150, 333, 700, 1500, 4000], 3):
                 out.append({"retry": True, "name": "retry%d" % i, "B": core.b64(B), "T0": core.b64(t0_for(B, p, set(M))), "M": M, "limit": r.choice([-1, 1, 2, 3]),
-                            "style": style, "boundary": bd, "upto": upto, "frag": r.choice(["all", "n:1", "n:7", "n:1000"]), "zh": ctx["zh"]})
+                            "style": style, "boundary": bd, "upto": upto,
+                            # (a 33 KB header field in 1-byte callbacks is quadratic re-scanning, not a hang - Corrections 3: keep those coarse)
+                            "frag": r.choice(["all", "n:1000", "n:16384"]) if style & 64 else r.choice(["all", "n:1", "n:7", "n:1000"]), "zh": ctx["zh"]})
         # --- larger files: random partitions, truncated targets, many ranges
         for i in range(8 if q else 120):
             n = r.choice([8, 30, 120])
@@ -342,7 +349,7 @@ class C05(core.Check):
             if i % 4 == 3:
                 ck = p.chunks[min(M)]
                 corrupt = p.header_len + ck["start"] + r.randrange(ck["comp_len"])
-            add("L%d" % i, B, M, r.choice([-1, 1, 2, 3, 7, 127, 255]), r.choice([0, 1, 2, 4, 8, 16, 7, 32]), r.choice(["plain", "hex", "rfc", "dashes"]),
+            add("L%d" % i, B, M, r.choice([-1, 1, 2, 3, 7, 127, 255]), r.choice([0, 1, 2, 4, 8, 16, 7, 32] + ([64, 96, 68, 64] if n == 8 else [])), r.choice(["plain", "hex", "rfc", "dashes"]),
                 "rand:%d:%d" % (40 if q else 300, r.randrange(1 << 30)), corrupt=corrupt, truncate=(i % 3 == 0))
             add("L%d" % i, B, M, r.choice([-1, 2, 255]), r.choice([0, 1, 4]), r.choice(["plain", "rfc"]), "list", truncate=(i % 3 == 0))
         return out
